@@ -29,6 +29,9 @@ def direct(rng):
     for P in (prog, it):
         P.append(["atom", "Word", atom_chars])
     parens = levels >= 2 and rng.random() < 0.5
+    # a terminal alternative listed BEFORE the recursive ones at the top level (E <<= q | E op T | T): a nested occurrence of
+    # E (inside parentheses) can then be settled by an alternative that never looks at the recursion memo
+    qfirst = parens and not grouped and body_kind == "MatchFirst" and rng.random() < 0.35
     fw = [f"L{i}" for i in range(levels)]
     for f in fw:
         prog.append([f, "Forward"])
@@ -64,6 +67,10 @@ def direct(rng):
             it.append([f"t{i}_{k}", "-" if dash else "+", o, lower_it])
             it_alts.append(f"t{i}_{k}")
         alts = ([lower_lr] + alts) if base_first else (alts + [lower_lr])
+        if qfirst and i == 0:
+            for P in (prog, it):
+                P.append(["q", "Literal", "q"])
+            alts = ["q"] + alts
         prog.append([f"b{i}", body_kind, alts])
         prog.append(["_", "<<=", f, f"b{i}"])
         # iterative equivalent of this level: lower (op lower)*
@@ -71,7 +78,12 @@ def direct(rng):
         it.append([f"tz{i}", "ZeroOrMore", f"ta{i}"])
         if i == 0 and parens:
             it.append([f"I{i}b", "+", lower_it, f"tz{i}"])
-            it.append(["_", "<<=", "L0", f"I{i}b"])
+            if qfirst:
+                # with `q` first, a rule that starts on a `q` returns it in every growth round: no growth
+                it.append([f"I{i}q", "MatchFirst", ["q", f"I{i}b"]])
+                it.append(["_", "<<=", "L0", f"I{i}q"])
+            else:
+                it.append(["_", "<<=", "L0", f"I{i}b"])
             cur_it = "L0"
         else:
             it.append([f"I{i}", "+", lower_it, f"tz{i}"])
@@ -86,7 +98,7 @@ def direct(rng):
         parts = []
         for j in range(k):
             if parens and d < 2 and rng.random() < 0.25:
-                parts.append("(" + expr(d + 1) + ")")
+                parts.append("(" + ("q" if qfirst and rng.random() < 0.5 else expr(d + 1)) + ")")
             else:
                 parts.append("".join(rng.choice(atom_chars) for _ in range(rng.randint(1, 2))))
         out = parts[0]
@@ -97,7 +109,9 @@ def direct(rng):
     inputs = [expr() for _ in range(5)]
     s = inputs[0]
     inputs += [s + rng.choice(all_ops), rng.choice(all_ops) + s, s[:-1] + "x", "", " " + s + " "]
-    meta = dict(levels=levels, grouped=grouped, body=body_kind, dash=dash, base_first=base_first, parens=parens)
+    if qfirst:
+        inputs[4] = "q" + rng.choice(all_ops) + inputs[4]
+    meta = dict(levels=levels, grouped=grouped, body=body_kind, dash=dash, base_first=base_first, parens=parens, qfirst=qfirst)
     return prog, root, it, it_root, inputs, meta
 
 
